@@ -63,6 +63,14 @@ proof fn axiom_noiodrop_fd<T>(a: &NoIoDrop<T>)
     ensures crate::ext::fd_raw(a) == crate::ext::fd_raw(&a.0),
 {}
 //@ endregion
+// the read-only view of the wrapper: hands out the wrapped object itself (Borrow, Deref: not extracted -- Verus cannot
+// infer the named return of `Borrow::borrow`)
+//@ open src/sources/generic.rs / impl AsRef<T> for NoIoDrop<T>
+//@ item src/sources/generic.rs / impl AsRef<T> for NoIoDrop<T> / fn as_ref props=C16,C03 ret=r
+//@ spec
+        ensures *r == self.val(),
+//@ enditem
+//@ close
 //@ open src/sources/generic.rs / impl AsFd for NoIoDrop<T>
 //@ item src/sources/generic.rs / impl AsFd for NoIoDrop<T> / fn as_fd props=C16
 //@ entry
